@@ -86,7 +86,8 @@ Judge(e) ==
       fail ==
         If(e.outcome \in {"ok", "err"}, "C05:" \o e.outcome)
         \cup If(e.largest <= Bound(e.limit, hasmap, codec), "C05:allocation-above-limit")
-        \cup (IF e.entry = "datum" /\ e.outcome \in {"ok", "err"} THEN DatumFails(e) ELSE {})
+        \* "heavy" inputs (hundreds of thousands of declared items) are judged for C05 only
+        \cup (IF e.entry = "datum" /\ e.outcome \in {"ok", "err"} /\ ~e.heavy THEN DatumFails(e) ELSE {})
   IN [fail |-> fail, known |-> {}, drift |-> {}]
 
 Init == l = 1
